@@ -121,8 +121,11 @@ fn gen_transform(rng: &mut Rng, root: &str, first: Option<Value>, n: usize) -> (
       (Some(f), 0) => f.clone(),
       _ => gen_op(rng, &src),
     };
-    m.insert(pool[j].clone(), op);
-    names.push(pool[j].clone());
+    // every other name extends the one before it (`NP`, `NP_UP`, `NP_UP2`): a template scanner
+    // must take the longest name, whichever order the keys of the `transform` map come in
+    let name = if j > 0 && rng.chance(1, 2) { format!("{}{}", names[j - 1], rng.pick(&["_UP", "2", "X", "_"])) } else { pool[j].clone() };
+    m.insert(name.clone(), op);
+    names.push(name);
   }
   (Value::Object(m), names)
 }
